@@ -380,6 +380,40 @@ def run(repo: Repo, chk: Check, thorough: bool = False) -> None:
                '; '.join(sites)[:200] if sites else
                f'`{norm(entries[0])[:70]}` builds an entry per object but never adds the private marker: on this page the "Toggle Private API" button cannot '
                'hide the private objects', repo.loc(f.mod, entries[0]))
+    # the marker goes on the entry OF THE OBJECT THAT WAS TESTED: `if isPrivate(X): entry(class_='private')` where `entry` was built from a loop
+    # variable - X must be that loop variable, not a variable left over from an earlier loop
+    n_subj = 0
+    for f in sorted(repo.funcs.values(), key=lambda f: f.qn):
+        if not f.mod.name.startswith('pydoctor.templatewriter'):
+            continue
+        for n in f.walk():
+            if not isinstance(n, ast.If):
+                continue
+            subj = None
+            t = n.test
+            if isinstance(t, ast.Call) and call_name(t) in ('isPrivate', 'isClassNodePrivate') and t.args and isinstance(t.args[0], ast.Name):
+                subj = t.args[0].id
+            elif isinstance(t, ast.Attribute) and t.attr == 'isPrivate' and isinstance(t.value, ast.Name):
+                subj = t.value.id
+            if subj is None:
+                continue
+            marks = [c for st in n.body for c in ast.walk(st) if isinstance(c, ast.Call) and isinstance(c.func, ast.Name) and
+                     any(k.arg == 'class_' and isinstance(k.value, ast.Constant) and 'private' in str(k.value.value) for k in c.keywords)]
+            for mk in marks:
+                entry = mk.func.id      # type: ignore[attr-defined]
+                loops_in = [p for p in parents(n) if isinstance(p, (ast.For, ast.comprehension)) and isinstance(p.target, ast.Name)]
+                loopvars = {p.target.id for p in loops_in}    # type: ignore[union-attr]
+                builds = [a for a in f.walk() if isinstance(a, (ast.Assign, ast.AnnAssign)) and a.value is not None and
+                          any(isinstance(tg, ast.Name) and tg.id == entry for tg in (a.targets if isinstance(a, ast.Assign) else [a.target]))]
+                from_vars = {x.id for a in builds for x in ast.walk(a.value) if isinstance(x, ast.Name)} & loopvars
+                if not from_vars:
+                    continue
+                n_subj += 1
+                chk.ob('R12.4', f'{f.qn} :: the marker on `{entry}` is decided by the object the entry was built from', subj in from_vars,
+                       f'isPrivate({subj}) for an entry built from {sorted(from_vars)}' if subj in from_vars else
+                       f'the entry `{entry}` is built from {sorted(from_vars)} but the marker is decided by `{subj}`, a variable that is not the loop variable here: '
+                       'a private object is listed without the marker (or a public one with it)', repo.loc(f.mod, n))
+    chk.stats['marker_subject_sites'] = n_subj
     # a marker accumulated in a local variable must survive to the return: no plain re-assignment after it
     for q in sorted(MARKER_SITES):
         f = repo.func(q)
